@@ -758,8 +758,10 @@ def part_projection(job):
         ref_types, ref_indep = np.array(ref_types), np.array(ref_indep)
         # the call path the solver uses (index arrays) and the direct one; then row by row for the
         # rows where a rotation is exactly zero (nan_to_num path on its own)
-        out_idx = np.asarray(LighthouseGeometrySolver._poses_to_angle_pairs(bss, cfs, sens, idx_bs, idx_cf, idx_s, defs))
         out_dir = np.asarray(LighthouseGeometrySolver._calc_angle_pairs(bss[idx_bs], cfs[idx_cf], sens[idx_s], defs))
+        # the index-array wrapper is a private convenience of the solver: used when it exists
+        wrap = getattr(LighthouseGeometrySolver, '_poses_to_angle_pairs', None)
+        out_idx = np.asarray(wrap(bss, cfs, sens, idx_bs, idx_cf, idx_s, defs)) if wrap is not None else out_dir
         if not (np.array_equal(snap[0], bss) and np.array_equal(snap[1], cfs) and np.array_equal(snap[2], sens)):
             p.violation('solver:inputs_modified', 'the vectorised projection modified its parameter arrays (bs rot %r)'
                         % (brv,), {'part': 'proj_batch', 'brv': list(brv)})
@@ -828,6 +830,9 @@ def part_params(job):
             cls = rot_class(rv)
             rp = {'part': 'params', 'rv': list(rv), 't': list(t)}
             P = _pose(rv, t)
+            if not (hasattr(LighthouseGeometrySolver, '_pose_to_params') and hasattr(LighthouseGeometrySolver, '_params_to_pose')):
+                p.cap('solver parameter <-> pose helpers not found under their names: that part is not judged')
+                return p
             par = np.asarray(LighthouseGeometrySolver._pose_to_params(P), dtype=float)
             p.case(key=('params', rv, t), outcome=cls)
             ok = par.shape == (6,)
